@@ -334,6 +334,8 @@ fn add_blocks(node: &Node, n: u32) -> Result<u32, String> {
         let (h, p) = make_testnet_header(t.tip(), t.height());
         t.add_block(h, p).map_err(|e| format!("{:?}", e))?;
     }
+    // as the protocol handler does after every block: the restarts below come back to this height
+    node.get_persister().update_tracker(&node.get_id(), &t).map_err(|e| format!("persist tracker: {:?}", e))?;
     Ok(t.height())
 }
 
@@ -538,15 +540,45 @@ impl Env {
             }
         }
         // allowlist churn
-        if rng.chance(1, 60) {
+        if rng.chance(1, 40) {
             let node = self.world.node.clone();
             match rng.below(3) {
                 0 if !self.allow_scripts.is_empty() => {
                     let i = rng.usize(self.allow_scripts.len());
                     let (a, s) = self.allow_scripts.remove(i);
-                    if node.remove_allowlist(&[a]).is_ok() {
+                    // half of the removals meet a store that is unavailable for one write; the request fails (or
+                    // the daemon dies) and the node sends it again; afterwards the signer is restarted
+                    let inject = rng.bool();
+                    if inject {
+                        self.world.store.arm_faults(0, 1);
+                    }
+                    let a1 = a.clone();
+                    let n1 = node.clone();
+                    let mut res = report::catch(move || n1.remove_allowlist(&[a1]).map_err(|e| format!("{:?}", e)));
+                    let fired = if inject { self.world.store.disarm_faults() } else { 0 };
+                    if fired > 0 && !matches!(res, Ok(Ok(()))) {
+                        r.count("world.allowlist_removal_met_storage_failure");
+                        if res.is_err() {
+                            if self.world.restart().is_err() {
+                                r.inconclusive("restart failed");
+                                return;
+                            }
+                        }
+                        let n2 = self.world.node.clone();
+                        let a2 = a.clone();
+                        res = report::catch(move || n2.remove_allowlist(&[a2]).map_err(|e| format!("{:?}", e)));
+                        r.count("world.allowlist_removal_retried");
+                    }
+                    if matches!(res, Ok(Ok(()))) {
                         self.removed_scripts.push(s);
                         r.count("world.allowlist_script_removed");
+                        if fired > 0 || rng.chance(1, 3) {
+                            if self.world.restart().is_err() {
+                                r.inconclusive("restart failed");
+                                return;
+                            }
+                            r.count("world.restarts");
+                        }
                     } else {
                         r.inconclusive("remove_allowlist failed");
                     }
@@ -559,6 +591,18 @@ impl Env {
                         r.count("world.allowlist_xpub_removed");
                     } else {
                         r.inconclusive("remove_allowlist(xpub) failed");
+                    }
+                }
+                2 if rng.bool() => {
+                    // a refused addition: a valid destination followed by an entry that does not parse; nothing
+                    // of it may take effect, the destination stays one that sweeps must not pay
+                    let pk = rand_pubkey(rng, &self.secp);
+                    let a = key_address(&self.secp, &pk, rng.below(4), self.net);
+                    let res = node.add_allowlist(&[a.to_string(), "not-an-address".to_string()]);
+                    r.count("world.allowlist_mixed_addition_sent");
+                    if res.is_err() {
+                        r.count("world.allowlist_mixed_addition_refused");
+                        self.removed_scripts.push(a.script_pubkey());
                     }
                 }
                 _ => {
